@@ -475,7 +475,7 @@ PROPS["C20"] = dict(
 
 # ------------------------------------------------------------------ wire (Wire.tla): C15, C16, C07
 LENS = {"LensA": [1, 2, 0], "LensB": [2, 1], "LensC": [0, 3, 1], "LensD": [1, 1, 1, 2]}
-C2S_BY_LEN = {0: "req-empty", 1: "req", 2: "req-unicode", 3: "req-large"}
+C2S_BY_LEN = {0: "cancel-notrace", 1: "req", 2: "req-zero", 3: "req-large"}
 S2C_BY_LEN = {0: "resp-idmax", 1: "resp", 2: "resp-unicode", 3: "resp-large"}
 
 
@@ -509,7 +509,7 @@ def wire_fixed(kinds):
             for codec in ("mem-unbounded", "mem-bounded"):
                 for d in ("c2s", "s2c"):
                     for close in ("drop", "close", "keep") + (("closekeep",) if codec == "mem-bounded" else ()):
-                        msgs = (["req", "req-idmax", "cancel", "req-unicode", "req-large", "req-past"] if d == "c2s"
+                        msgs = (["req", "req-idmax", "cancel", "req-unicode", "req-large", "req-past", "cancel-notrace", "req-zero", "cancel-zero", "req-notrace"] if d == "c2s"
                                 else ["resp", "err:NotFound", "err:OutOfMemory", "resp-large", "resp-idmax"])
                         out.append(dict(id="fixed:%s:%s:%s" % (codec, d, close),
                                         cfg={"kind": "rt", "codec": codec, "dir": d, "msgs": msgs, "rscript": [], "wscript": [],
